@@ -19,6 +19,12 @@ def queries(tier):
                     unwind={"memcpy": 14, "memset": 14, "memmove": 14, "strlen": 4, "shape": 6, "names": 6},
                     bounds="%d nodes in every well-formed forest shape (links symbolic), names from {a,b,''}; one %s with position -3..3" % (nn, op),
                     outside="more than %d nodes; histories" % nn))
+    qs.append(Q("node_locate_nul_names", "C14/nodes.c", units=UNITS, harness_defines={"OP": "OP_LOCATE", "NN": 3, "V_NMAX": 96, "NUL_NAMES": 1},
+                unwind_default=6, flags=["--memory-leak-check", "--max-field-sensitivity-array-size", "200"],
+                fp=[(r"getnode", ["verif_gnode_pos_u", "node_locate"])], stubs=["libc.c", "no_traits.c", "libc_loops.c"],
+                unwind={"memcpy": 14, "memset": 14, "memmove": 14, "strlen": 4, "shape": 6, "names": 6, "memcmp": 5},
+                bounds="3 nodes in every well-formed shape, three-byte names that differ only behind an embedded NUL byte; forward by-name search",
+                outside="see node_locate"))
     qs.append(Q("node_release", "C14/release.c",
                 units=["mptcore/node/%s.c" % f for f in "node_new node_destroy node_clear node_unlink gnode_after gnode_before gnode_pos node_locate".split()] + ["mptcore/misc/identifier.c"],
                 unwind_default=6, flags=["--memory-leak-check", "--max-field-sensitivity-array-size", "200"],
